@@ -96,3 +96,20 @@ pub struct RouterSnapshot {
     pub total_connections: usize,
     pub counters: Counters,
 }
+
+/// A callback the router invokes at named points that lie *between* two critical sections
+/// (two separate acquisitions of a lock shared with a link task), so that a harness can widen
+/// the window there. Process-wide; `None` (the default) makes the points free.
+pub type Pause = Box<dyn Fn(&'static str) + Send + Sync>;
+
+static PAUSE: parking_lot::RwLock<Option<Pause>> = parking_lot::const_rwlock(None);
+
+pub fn set_pause(f: Option<Pause>) {
+    *PAUSE.write() = f;
+}
+
+pub(crate) fn pause(point: &'static str) {
+    if let Some(f) = PAUSE.read().as_ref() {
+        f(point)
+    }
+}
